@@ -53,3 +53,21 @@ Proof.
   - split; [exists 3; split; [lra | unf; f_equal; [f_equal|]; field] | unf; repeat split; lra].
   - split; [exists 3; split; [lra | unf; f_equal; [f_equal|]; field] | unf; repeat split; lra].
 Qed.
+
+(* ---- ... and without the genericity condition: every wave vector whose projection into the plane is not zero ---- *)
+Require Import Cox.Thm.TriDegenerateFF.
+
+Definition tri3_planar (n a b c : V3) : Prop :=
+  exists s, s <> 0 /\ vcross Rops (vsub Rops b a) (vsub Rops c a) = vscale Rops s n.
+Fixpoint planar_fan3 (n a b : V3) (l : list V3) : Prop :=
+  match l with [] => True | c :: r => tri3_planar n a b c /\ planar_fan3 n a c r end.
+
+Theorem polygon_any_plane_all_directions n q a b l :
+  vdot Rops n n = 1 -> planar_fan3 n a b l -> vdot Rops (qpar n q) (qpar n q) <> 0 ->
+  polygon_ff n (qpar n q) (a :: b :: l) = fan3_fourier n q a b l.
+Proof.
+  move=> Hn Hp HQ. rewrite ff_is_fan. elim: l b Hp => [|c r IH] b H; cbn [ff_fan fan3_fourier]; first by [].
+  case: H => [[s [Hs HN]] Hr].
+  rewrite (triangle_any_plane_all_directions n q a b c s Hn Hs HN HQ) (IH c Hr) /tri3_fourier.
+  rewrite HN dot_scale Hn Rmult_1_r. reflexivity.
+Qed.
